@@ -379,7 +379,7 @@ var opKinds = []struct {
 	w int
 }{
 	{"setstate", 14}, {"addbal", 5}, {"subbal", 4}, {"touch", 4}, {"setnonce", 3}, {"setcode", 3}, {"create", 3}, {"newacc", 2},
-	{"suicide", 2}, {"addrefund", 2}, {"subrefund", 2}, {"log", 2}, {"aladdr", 2}, {"alslot", 2}, {"prepal", 1},
+	{"suicide", 2}, {"addrefund", 2}, {"subrefund", 2}, {"log", 2}, {"aladdr", 2}, {"alslot", 2}, {"prepal", 2},
 	{"snapshot", 7}, {"revert", 6}, {"finalise", 5}, {"block", 2}, {"read", 2},
 }
 
@@ -401,7 +401,10 @@ func genOp(c chooser, r *opsRun) Op {
 		}
 		o := Op{K: kind}
 		switch kind {
-		case "create", "suicide", "aladdr", "prepal":
+		case "prepal":
+			o.A = c.Int(0, len(opAddrs)-1, "a")
+			o.N = uint64(c.Int(0, 107, "alshape"))
+		case "create", "suicide", "aladdr":
 			o.A = c.Int(0, len(opAddrs)-1, "a")
 		case "touch":
 			// half of the zero-value credits go to the RIPEMD precompile (its touch survives reverts)
